@@ -662,11 +662,28 @@ func (e *Env) evalCall(x *ast.CallExpr) TV {
 			if isUntyped(a.T) {
 				a = e.coerce(a, b.T)
 			}
+			if isUntyped(b.T) {
+				b = e.coerce(b, a.T)
+			}
 			c := le(a.term(), b.term())
 			if id.Name == "max" {
 				c = le(b.term(), a.term())
 			}
-			return TV{Scalar{ite(c, a.term(), b.term()), "Int"}, a.T}
+			res := ite(c, a.term(), b.term())
+			// interval of min/max from the intervals of the operands (min(x, C) is how a contract caps a value it knows to
+			// be small, so that sums built from it need no wrap-around function)
+			alo, ahi := e.vc.rangeOf(a.term(), a.T)
+			blo, bhi := e.vc.rangeOf(b.term(), a.T)
+			if alo != nil && ahi != nil && blo != nil && bhi != nil {
+				pick := func(x, y *big.Int, wantMin bool) *big.Int {
+					if (x.Cmp(y) <= 0) == wantMin {
+						return x
+					}
+					return y
+				}
+				e.vc.setRange(res, pick(alo, blo, id.Name == "min"), pick(ahi, bhi, id.Name == "min"))
+			}
+			return TV{Scalar{res, "Int"}, a.T}
 		case "forallIn", "existsIn":
 			lo := e.eval(x.Args[0]).term()
 			hi := e.eval(x.Args[1]).term()
@@ -1155,6 +1172,23 @@ func (e *Env) inlineSpec(sf *SpecFunc, sig *types.Signature, args []TV) TV {
 	}
 	r := n.evalBlock(sf.Decl.Body.List)
 	rt := sig.Results().At(0).Type()
+	if e.vc.specRanges && e.inQuant == 0 && e.vc.inBinder == 0 {
+		// `option spec-ranges`: the value of an inlined spec function of integer type lies in the range of that type (it is
+		// computed with Go arithmetic). Stated as a ground fact: the solver otherwise has to rediscover 0 <= f(..) by case
+		// analysis of the (if/switch) body of every summand of a length expression.
+		if sc, ok := r.V.(Scalar); ok && sc.S == "Int" {
+			if _, isConst := constVal(sc.T); !isConst {
+				if f := rangeFact(rt, sc.T); f != "true" && !e.vc.declared["specrange|"+sc.T] {
+					e.vc.declared["specrange|"+sc.T] = true
+					// the interval computed for the term (sound on every path, see VC.rng) if it is tighter than the type's
+					if lo, hi := e.vc.rangeOf(sc.T, nil); lo != nil && hi != nil {
+						f = and(le(bignum(lo), sc.T), le(sc.T, bignum(hi)))
+					}
+					e.vc.assert(f)
+				}
+			}
+		}
+	}
 	return e.coerce(TV{r.V, r.T}, rt)
 }
 
